@@ -681,7 +681,7 @@ Example ex_terminal_reachable :
   length (qdelivered ex_final) = 70 /\ forallb (fun c => 0 <? length (qc_got c)) (q_cons ex_final) = true.
 Proof.
   split; [vm_compute; lia|]. split; [apply sweep_reachable; constructor|].
-  vm_compute. repeat split.
+  vm_compute. Show. repeat split.
 Qed.
 
 (* the producer alone fills the queue and then blocks: a reachable, non-terminal state in which a
